@@ -1121,7 +1121,68 @@ def g27_diagonal_quad_pair(rng):
     return (a, b) if rng.random() < 0.7 else (b, a)
 
 
+def g28_float_tjunction_pair(rng):
+    """a vertex of one operand exactly on the interior of an axis-parallel edge of the other, with decimal
+    (non-dyadic) coordinates of different magnitude: the end-point branches of the intersection routine return
+    `a1 + 1 * (a2 - a1)`, which is not `a2` in floating point; only the clamp to the common box restores it"""
+    u = lambda lo, hi: round(rng.uniform(lo, hi), rng.choice([1, 1, 2, 3]))
+    xv = u(0.1, 9.9)
+    y0, y1 = u(-5.0, -0.5), u(0.5, 6.0)
+    w = u(0.3, 4.0)
+    rect = _rect(xv, y0, xv + w, y1, ccw=rng.random() < 0.7)
+    ya = u(y0 + 0.2, y1 - 0.2)
+    xl = xv - u(0.5, 30.0)
+    yb, yc = ya - u(0.2, 3.0), ya + u(0.2, 3.0)
+    tri = [(xv, ya), (xl, yc), (xl, yb), (xv, ya)]
+    if rng.random() < 0.4:
+        tri.reverse()
+    a, b = [[rect]], [[tri]]
+    k = rng.randint(0, 3)
+    if k == 1:      # touching from the right: mirror in x
+        a = map_mpoly(a, lambda p: (-p[0], p[1])); b = map_mpoly(b, lambda p: (-p[0], p[1]))
+    elif k == 2:    # touching a horizontal edge from below
+        a = map_mpoly(a, lambda p: (p[1], p[0])); b = map_mpoly(b, lambda p: (p[1], p[0]))
+    elif k == 3:    # ... from above
+        a = map_mpoly(a, lambda p: (p[1], -p[0])); b = map_mpoly(b, lambda p: (p[1], -p[0]))
+    return (a, b) if rng.random() < 0.5 else (b, a)
+
+
+def g29_touch_shared_edge_pair(rng):
+    """an edge (piece) shared by both operands whose interior is touched by the extreme vertex of a further
+    ring of one operand -- both edges of that vertex arrive there from the same side -- in all eight axis
+    symmetries: the coincident pair is cut at that vertex for one of its two copies first"""
+    W = rng.randint(6, 10)
+    half = Fraction(1, 2)
+    plate = _rect(0, 2, W, 4, ccw=rng.random() < 0.8)
+    ax = rng.randint(2, W - 1) - half * rng.randint(0, 1)
+    d1, d2 = rng.randint(1, 3), rng.randint(0, 2)
+    if rng.random() < 0.7:
+        tri = [(ax, 2), (ax - d1 - d2 - 1, 0), (ax - d2 - half, 0), (ax, 2)]      # apex is the right-most vertex
+    else:
+        tri = [(ax, 2), (ax - d1, 0), (ax + d2 + half, 0), (ax, 2)]             # apex on top, edges from both sides
+    if rng.random() < 0.4:
+        tri.reverse()
+    x0 = rng.choice([0, 0, 1, -2])
+    x1 = rng.choice([W, W, W - 1, W + 2])
+    other = _rect(x0, 2, x1, rng.choice([3, 4, 5]), ccw=rng.random() < 0.7)
+    mode = rng.choice(["tri-with-plate", "tri-with-other", "same"])
+    if mode == "tri-with-plate":
+        a, b = [[plate], [tri]], [[other]]
+    elif mode == "tri-with-other":
+        a, b = [[plate]], [[other], [tri]]
+    else:
+        a, b = [[plate], [tri]], [[plate]]
+    sym = rng.choice([lambda p: p, lambda p: (-p[0], p[1]), lambda p: (p[0], -p[1]), lambda p: (-p[0], -p[1]),
+                      lambda p: (p[1], p[0]), lambda p: (-p[1], p[0]), lambda p: (p[1], -p[0]), lambda p: (-p[1], -p[0])])
+    a, b = map_mpoly(a, sym), map_mpoly(b, sym)
+    if rng.random() < 0.3:
+        a.reverse()
+    return (a, b) if rng.random() < 0.6 else (b, a)
+
+
 FAMILIES = {
+    "g29": g29_touch_shared_edge_pair,
+    "g28": g28_float_tjunction_pair,
     "g27": g27_diagonal_quad_pair,
     "g26": g26_slanted_hole_pair,
     "g25": g25_huge_offset_pair,
